@@ -222,11 +222,28 @@ func VerifH_C09_roundtrip() {
 	pkg := NewPackage("", "p", conf)
 	fe := &verifFE{pkg: pkg, labels: map[string]*Label{}, imports: alias, importRefs: map[string]PkgRef{}}
 	var out bytes.Buffer
+	// a force-import of the referenced package (before or after the reference is built) or of another one
+	force, forced := 0, ""
+	if second == 0 {
+		force = vp.Choose("force", 4)
+	}
+	switch force {
+	case 1, 2:
+		forced = verifFakePaths[a1]
+	case 3:
+		forced = verifFakePaths[(a1+1)%3]
+	}
 	class, rerr := vp.TryVal(func() {
+		if force == 1 || force == 3 {
+			pkg.ForceImport(forced)
+		}
 		fe.cb = pkg.NewFunc(nil, "body2", nil, nil, false).BodyStart(pkg)
 		fe.declareLabels(orig.Body.List)
 		fe.stmts(orig.Body.List)
 		fe.cb.End()
+		if force == 2 {
+			pkg.ForceImport(forced)
+		}
 		if err := WriteTo(&out, pkg); err != nil {
 			panic(err)
 		}
@@ -253,7 +270,18 @@ func VerifH_C09_roundtrip() {
 	wantUsed := verifQualify(file)
 	gotUsed := verifQualify(of)
 	sort.Strings(listed)
-	vp.Assert("C09.c09rt.imports.exact", strings.Join(listed, ";") == strings.Join(wantUsed, ";"))
+	wantListed := append([]string{}, wantUsed...)
+	if forced != "" {
+		have := false
+		for _, u := range wantUsed {
+			have = have || u == forced
+		}
+		if !have {
+			wantListed = append(wantListed, forced)
+			sort.Strings(wantListed)
+		}
+	}
+	vp.Assert("C09.c09rt.imports.exact", strings.Join(listed, ";") == strings.Join(wantListed, ";"))
 	vp.Assert("C09.c09rt.refs.resolve", strings.Join(gotUsed, ";") == strings.Join(wantUsed, ";"))
 	uniq := true
 	for i := range names {
